@@ -60,9 +60,11 @@ func NewClient(protoOptions protocol.ProtocolOptions, cfg *Config) *Client {
 		entry.Timeout = c.config.AcquireTimeout
 		stateMap[stateAcquiring] = entry
 	}
-	if entry, ok := stateMap[stateBusy]; ok {
-		entry.Timeout = c.config.QueryTimeout
-		stateMap[stateBusy] = entry
+	for _, busy := range []protocol.State{stateBusyHasTx, stateBusyNextTx, stateBusyGetSizes} {
+		if entry, ok := stateMap[busy]; ok {
+			entry.Timeout = c.config.QueryTimeout
+			stateMap[busy] = entry
+		}
 	}
 	// Configure underlying Protocol
 	protoConfig := protocol.ProtocolConfig{
